@@ -100,14 +100,11 @@ pub async fn rewrite(db: &Database, cmd: &Value) -> Value {
     let mut per_rule: BTreeMap<String, [u64; 4]> = BTreeMap::new(); // validated, differing, lhs_not_exec, rhs_not_exec
     let mut diffs = vec![];
     let mut seen: HashSet<String> = pool.iter().map(|p| p.to_string()).collect();
-    let mut base_cache: Vec<Option<Result<Vec<String>, String>>> = vec![];
+    let mut base_rows_cache: std::collections::HashMap<String, Result<Vec<String>, String>> = Default::default();
     let mut i = 0;
     let mut executed = 0u64;
     while i < pool.len() && i < max_pool {
         let plan = pool[i].clone();
-        while base_cache.len() <= i {
-            base_cache.push(None);
-        }
         for (_, name) in &rule_names {
             if let Some(only) = &only
                 && !only.contains(name)
@@ -125,14 +122,15 @@ pub async fn rewrite(db: &Database, cmd: &Value) -> Value {
             if outs.is_empty() {
                 continue;
             }
-            if base_cache[i].is_none() {
-                base_cache[i] = Some(exec_plan(db, &opt, &plan).await.map(|c| rows_of(&c)));
-                executed += 1;
-            }
-            let base = base_cache[i].clone().unwrap();
-            for new in outs {
+            for (base_plan, new) in outs {
                 let e = per_rule.entry(name.clone()).or_default();
-                let Ok(base_rows) = &base else {
+                let key = base_plan.to_string();
+                if !base_rows_cache.contains_key(&key) {
+                    let r = exec_plan(db, &opt, &base_plan).await.map(|c| rows_of(&c));
+                    executed += 1;
+                    base_rows_cache.insert(key.clone(), r);
+                }
+                let Ok(base_rows) = base_rows_cache.get(&key).unwrap() else {
                     e[2] += 1;
                     continue;
                 };
@@ -149,16 +147,15 @@ pub async fn rewrite(db: &Database, cmd: &Value) -> Value {
                         } else {
                             e[1] += 1;
                             if diffs.len() < 40 {
-                                diffs.push(json!({"rule": name, "kind": "rows-differ", "lhs": plan.to_string(), "rhs": new.to_string(),
+                                diffs.push(json!({"rule": name, "kind": "rows-differ", "lhs": base_plan.to_string(), "rhs": new.to_string(),
                                     "lhs_rows": base_rows.iter().take(6).collect::<Vec<_>>(), "rhs_rows": rows.iter().take(6).collect::<Vec<_>>(),
                                     "lhs_n": base_rows.len(), "rhs_n": rows.len()}));
                             }
                         }
                     }
-                    Err(why) => {
-                        e[3] += 1;
+                    Err(_why) => {
                         // an intermediate form may legitimately be non-executable (apply, prune ...)
-                        let _ = why;
+                        e[3] += 1;
                     }
                 }
             }
